@@ -359,7 +359,7 @@ def _then_wrap(wrapper):
 
 
 def m_option(ex, st, callee, A):
-    m = re.match(r'^(?:std::option::|core::option::)?Option::<(.*)>::(\w+)(?:::<.*>)?$', callee)
+    m = re.match(r'^(?:std::option::|core::option::)?Option::<(.*?)>::(\w+)(?:::<.*>)?$', callee)
     if not m:
         return None
     fn = m.group(2)
@@ -388,6 +388,27 @@ def m_option(ex, st, callee, A):
         for cond, name, pay in C():
             alts.append(([cond], none()) if name == 'None' else ([cond], ex.call_closure(st, A[1], [pay[0]])))
         return _flatten(ex, alts)
+    if fn == 'filter':
+        alts = []
+        for cond, name, pay in C():
+            if name == 'None':
+                alts.append(([cond], none()))
+            else:
+                def then(st3, rv, pay=pay):
+                    if not isinstance(rv, BoolV):
+                        raise NotEncoded(f'Option::filter closure returned {rv!r}')
+                    return [([rv.t], some(pay[0])), ([z3.Not(rv.t)], none())]
+                alts.append(([cond], ex.call_closure(st, A[1], [ex.new_cell(st, pay[0], 'filter_arg')], then=then)))
+        return _flatten(ex, alts)
+    if fn == 'transpose':
+        alts = []
+        for cond, name, pay in C():
+            if name == 'None':
+                alts.append(([cond], ok(none())))
+            else:
+                for c2, n2, p2 in enum_cases(ex, st, pay[0]):
+                    alts.append(([cond, c2], ok(some(p2[0])) if n2 == 'Ok' else err(p2[0])))
+        return alts
     if fn == 'ok_or':
         return [([c], err(A[1]) if n == 'None' else ok(p[0])) for c, n, p in C()]
     if fn == 'ok_or_else':
@@ -453,7 +474,7 @@ def m_option(ex, st, callee, A):
 
 
 def m_result(ex, st, callee, A):
-    m = re.match(r'^(?:std::result::|core::result::)?Result::<(.*)>::(\w+)(?:::<.*>)?$', callee)
+    m = re.match(r'^(?:std::result::|core::result::)?Result::<(.*?)>::(\w+)(?:::<.*>)?$', callee)
     if not m:
         return None
     fn = m.group(2)
@@ -775,7 +796,7 @@ def _is_ok_like(ex, v):
 
 
 def m_iter_hof(ex, st, callee, A):
-    m = re.search(r' as Iterator>::(any|all|try_for_each|count|zip|collect|map|rev|fold)(::<(.*)>)?$', callee)
+    m = re.search(r' as Iterator>::(any|all|try_for_each|for_each|filter_map|count|zip|collect|map|rev|fold)(::<(.*)>)?$', callee)
     if m and A:
         op = m.group(1)
         items, consume = _take_iter(ex, st, A[0])
@@ -833,6 +854,29 @@ def m_iter_hof(ex, st, callee, A):
                     return Agg('struct', '~vec_iter', None, acc)
                 return ex.call_closure(st2, clo, [rest[0]], then=lambda st3, r: gomap(st3, rest[1:], acc + [r]))
             return gomap(st, items, [])
+
+        if op == 'for_each':
+            def goeach(st2, rest):
+                if not rest:
+                    return UNIT
+                return ex.call_closure(st2, clo, [rest[0]], then=lambda st3, r: goeach(st3, rest[1:]))
+            return goeach(st, items)
+        if op == 'filter_map':
+            # eager, like map: the closure result decides per path whether the item is kept
+            def gofm(st2, rest, acc):
+                if not rest:
+                    return Agg('struct', '~vec_iter', None, acc)
+
+                def then(st3, r):
+                    alts = []
+                    for cnd, n, p in enum_cases(ex, st3, r):
+                        c = z3.simplify(cnd)
+                        if z3.is_false(c):
+                            continue
+                        alts.append(([] if z3.is_true(c) else [c], gofm(st3, rest[1:], acc + ([p[0]] if n == 'Some' else []))))
+                    return alts
+                return ex.call_closure(st2, clo, [rest[0]], then=then)
+            return gofm(st, items, [])
 
         def go(st2, rest):
             if not rest:
@@ -989,7 +1033,7 @@ def m_ref_eq(ex, st, callee, A):
 def install(ex):
     for rx, fn in [
         (r'new_uninit$|box_assume_init_into_vec_unsafe::<|Vec::<.*>::(new|push|pop)$|Vec<.*> as Deref(Mut)?>::deref(_mut)?$| as IntoIterator>::into_iter$| as Iterator>::(next$|filter::<)|slice::<impl \[.*\]>::iter$|BTreeMap::<.*>::iter$', m_vec_macro),
-        (r' as Iterator>::(any|all|try_for_each|count|zip|collect|map|rev|fold)(::<.*>)?$|(HashMap|BTreeMap)::<.*>::(contains_key|get|iter|values|keys|is_empty|len)(::<.*>)?$|(HashMap|BTreeMap)<.*> as IntoIterator>::into_iter$', m_iter_hof),
+        (r' as Iterator>::(any|all|try_for_each|for_each|filter_map|count|zip|collect|map|rev|fold)(::<.*>)?$|(HashMap|BTreeMap)::<.*>::(contains_key|get|iter|values|keys|is_empty|len)(::<.*>)?$|(HashMap|BTreeMap)<.*> as IntoIterator>::into_iter$', m_iter_hof),
         (r'<impl [iu](8|16|32|64|128|size)>::\w+$', m_int),
         (r'(PartialOrd|PartialEq|Ord)(<[^>]*>)?( for \w+)?>::\w+$', m_int_cmp),
         (r'PartialOrd(<[^>]*>)?>::(lt|le|gt|ge)$|Ord>::(max|min)$', m_partial_ord),
